@@ -160,3 +160,71 @@ def st_history(case, ctx):
                       "f1": observe_file(fpath(d, "f1"), paths, case.get("via") == "cli"),
                       "f2": observe_file(fpath(d, "f2"), paths, case.get("via") == "cli")})
     return {"steps": steps, "leaked_ids_closed": leaked}
+
+
+@driver("st.rootattrs")
+def st_rootattrs(case, ctx):
+    """The destination is the ROOT of an existing file that carries attributes of its own - written by another tool
+    (h5py), or the root of a multi-resolution file made by zoomify_cooler - and a member that is not a cooler table."""
+    import h5py
+    import cooler
+    d = ctx.subdir()
+    table = gen.simple_table(4)
+    bins = gen.bins_frame(table)
+    c = case["c"]
+
+    def mk(uri, val, assembly, mode="a"):
+        cooler.create_cooler(uri, bins, gen.pixels_frame([[0, 1, val], [2, 2, val]]), ordered=True, assembly=assembly,
+                             metadata={"c": val}, mode=mode)
+    a = os.path.join(d, "a.cool")
+    mk(a + "::/x", c, case["src_assembly"])
+    b = os.path.join(d, "b.h5")
+    if case["dest"] == "mcool":
+        base = os.path.join(d, "base.cool")
+        mk(base, 9, "old", mode="w")
+        cooler.zoomify_cooler(base, b, [2 * cooler.Cooler(base).binsize], chunksize=100)
+    else:
+        with h5py.File(b, "w") as f:
+            f.create_group("misc").attrs["k"] = "v"
+    with h5py.File(b, "r+") as f:
+        for k, v in case["foreign"]:
+            f.attrs[k] = v
+        member = "resolutions" if case["dest"] == "mcool" else "misc"
+
+    def attrs_of(fp, grp):
+        with h5py.File(fp, "r") as f:
+            return sorted([str(k), str(project.attr(v))] for k, v in f[grp].attrs.items())
+    before = attrs_of(b, "/")
+    src = attrs_of(a, "/x")
+    err = ""
+    try:
+        if case["op"] == "cp":
+            if case.get("via") == "cli":
+                from click.testing import CliRunner
+                from cooler.cli import cli
+                res = CliRunner().invoke(cli, ["cp", a + "::/x", b + "::/"])
+                if res.exit_code != 0:
+                    raise res.exception if isinstance(res.exception, Exception) else RuntimeError(res.output[-200:])
+            else:
+                cooler.fileops.cp(a + "::/x", b + "::/")
+        else:
+            mk(b, c, case["assembly"], mode="a" if case["op"] == "create_a" else "w")
+    except Exception as ex:
+        err = type(ex).__name__
+    _close_leaked_ids()
+    after = attrs_of(b, "/")
+    with h5py.File(b, "r") as f:
+        member_after = member in f
+    o = {"err": err, "before": before, "after": after, "src": src, "foreign_member_after": bool(member_after),
+         "is_cooler": bool(cooler.fileops.is_cooler(b + "::/")), "dst_info": "", "src_info": "", "dst_content": -1,
+         "src_content": c, "dst_assembly": "", "dst_meta_c": -1}
+    if o["is_cooler"]:
+        cd, cs = cooler.Cooler(b + "::/"), cooler.Cooler(a + "::/x")
+        # the destination's info restricted to the entries the source has (the root may carry unrelated attributes of its own)
+        o["dst_info"], o["src_info"] = (project.canon_json({k: project.attr(v) for k, v in x.info.items() if k in cs.info})
+                                        for x in (cd, cs))
+        o["dst_content"] = project.to_int(cd.pixels()[:]["count"].iloc[0])
+        o["dst_assembly"] = str(cd.info.get("genome-assembly", ""))
+        md = cd.info.get("metadata", {})
+        o["dst_meta_c"] = project.to_int(md.get("c", -1)) if isinstance(md, dict) else -1
+    return o
